@@ -293,7 +293,7 @@ func (g gen12) mutate(s string) string {
 	return string(b)
 }
 
-var defaults = []int64{1700000000123456789, 0, -1234567890123456, 1, models.MaxNanoTime, models.MinNanoTime, 59999999999, -1}
+var defaults = []int64{1700000000123456789, 0, -1234567890123456, 1, models.MaxNanoTime, models.MinNanoTime + 3600000000000, 59999999999, -1}
 
 func (g gen12) prec() string {
 	if g.n(3) == 0 {
